@@ -4,6 +4,9 @@ package harness
 // attribute.BeginBlocker on a real app, over histories with moving block times.
 // After every op the whole attribute store (records, lookup counters, expiration queue),
 // the AccountsByAttribute lookups and the name owners are dumped canonically.
+// The name of a message is its RAW spelling (`_` = space in the op line): mixed case, white
+// space around the name or around a segment — all accepted by ValidateBasic — by owners and by
+// strangers, in every message kind.
 
 import (
 	"crypto/sha256"
@@ -59,6 +62,7 @@ type attrEnv struct {
 	amsg    attrtypes.MsgServer
 	nmsg    nametypes.MsgServer
 	last    string // last dump
+	lastVB  string // "pass"/"fail": ValidateBasic of the last message (the tx path runs it before the server)
 }
 
 func attrAddr(sym string) sdk.AccAddress {
@@ -168,6 +172,100 @@ func attrExp(s string) *time.Time {
 	return &t
 }
 
+// attrRaw decodes the name token of an op line into the raw string put into the message.
+func attrRaw(tok string) string { return strings.ReplaceAll(tok, "_", " ") }
+
+// attrTok is the inverse (names never contain '_').
+func attrTok(raw string) string { return strings.ReplaceAll(raw, " ", "_") }
+
+// attrSpell returns a non-normalised spelling (as an op-line token) of a normalised name:
+// letter case, white space around the whole name, white space around a segment, or a mix.
+func attrSpell(rng *RNG, name string) string {
+	kind := 0 // bit 0 case, bit 1 outer white space, bit 2 inner white space
+	switch k := rng.Intn(100); {
+	case k < 40:
+		kind = 1
+	case k < 55:
+		kind = 2
+	case k < 70:
+		kind = 4
+	default:
+		kind = 1 + rng.Intn(7)
+	}
+	b := []byte(name)
+	if kind&1 != 0 {
+		var letters []int
+		for i, c := range b {
+			if c >= 'a' && c <= 'z' {
+				letters = append(letters, i)
+				if rng.Chance(45) {
+					b[i] = c - 32
+				}
+			}
+		}
+		if len(letters) > 0 {
+			i := Pick(rng, letters)
+			if b[i] >= 'a' {
+				b[i] -= 32
+			}
+		}
+	}
+	out := string(b)
+	if kind&4 != 0 {
+		var dots []int
+		for i := range out {
+			if out[i] == '.' {
+				dots = append(dots, i)
+			}
+		}
+		if len(dots) > 0 {
+			i := Pick(rng, dots)
+			switch rng.Intn(3) {
+			case 0:
+				out = out[:i] + "_" + out[i:]
+			case 1:
+				out = out[:i+1] + "_" + out[i+1:]
+			default:
+				out = out[:i] + "_._" + out[i+1:]
+			}
+		}
+	}
+	if kind&2 != 0 {
+		switch rng.Intn(3) {
+		case 0:
+			out = strings.Repeat("_", 1+rng.Intn(2)) + out
+		case 1:
+			out = out + strings.Repeat("_", 1+rng.Intn(2))
+		default:
+			out = "_" + out + "_"
+		}
+	}
+	return out
+}
+
+// attrSpellClass names what the three key functions make of a raw spelling (for the
+// distribution counters only).
+func attrSpellClass(tok string) string {
+	raw := attrRaw(tok)
+	var c []string
+	if strings.ToLower(raw) != raw {
+		c = append(c, "case")
+	}
+	if strings.TrimSpace(raw) != raw {
+		c = append(c, "outer")
+	}
+	for _, seg := range strings.Split(strings.TrimSpace(raw), ".") {
+		if strings.TrimSpace(seg) != seg {
+			c = append(c, "inner")
+			break
+		}
+	}
+	if len(c) == 0 {
+		return "exact"
+	}
+	return strings.Join(c, "+")
+}
+
 func attrErrClass(err error) string {
 	m := err.Error()
 	switch {
@@ -215,6 +313,14 @@ func (e *attrEnv) exec(op string) string {
 		}
 		return "ok"
 	}
+	e.lastVB = ""
+	vb := func(m interface{ ValidateBasic() error }) {
+		if m.ValidateBasic() == nil {
+			e.lastVB = "pass"
+		} else {
+			e.lastVB = "fail"
+		}
+	}
 	switch ws[0] {
 	case "init":
 		e.reset(ws[1:])
@@ -224,40 +330,54 @@ func (e *attrEnv) exec(op string) string {
 		return e.last
 	case "add":
 		return run(func(ctx sdk.Context) error {
-			_, err := e.amsg.AddAttribute(ctx, &attrtypes.MsgAddAttributeRequest{
-				Owner: e.bech(ws[1]), Account: e.bech(ws[2]), Name: ws[3], Value: attrVal(ws[4]),
-				AttributeType: attrTypeOf(ws[5]), ExpirationDate: attrExp(ws[6])})
+			m := &attrtypes.MsgAddAttributeRequest{
+				Owner: e.bech(ws[1]), Account: e.bech(ws[2]), Name: attrRaw(ws[3]), Value: attrVal(ws[4]),
+				AttributeType: attrTypeOf(ws[5]), ExpirationDate: attrExp(ws[6])}
+			vb(m)
+			_, err := e.amsg.AddAttribute(ctx, m)
 			return err
 		})
 	case "upd":
 		return run(func(ctx sdk.Context) error {
-			_, err := e.amsg.UpdateAttribute(ctx, &attrtypes.MsgUpdateAttributeRequest{
-				Owner: e.bech(ws[1]), Account: e.bech(ws[2]), Name: ws[3],
+			m := &attrtypes.MsgUpdateAttributeRequest{
+				Owner: e.bech(ws[1]), Account: e.bech(ws[2]), Name: attrRaw(ws[3]),
 				OriginalValue: attrVal(ws[4]), OriginalAttributeType: attrTypeOf(ws[5]),
-				UpdateValue: attrVal(ws[6]), UpdateAttributeType: attrTypeOf(ws[7])})
+				UpdateValue: attrVal(ws[6]), UpdateAttributeType: attrTypeOf(ws[7])}
+			vb(m)
+			_, err := e.amsg.UpdateAttribute(ctx, m)
 			return err
 		})
 	case "updexp":
 		return run(func(ctx sdk.Context) error {
-			_, err := e.amsg.UpdateAttributeExpiration(ctx, &attrtypes.MsgUpdateAttributeExpirationRequest{
-				Owner: e.bech(ws[1]), Account: e.bech(ws[2]), Name: ws[3], Value: attrVal(ws[4]), ExpirationDate: attrExp(ws[5])})
+			m := &attrtypes.MsgUpdateAttributeExpirationRequest{
+				Owner: e.bech(ws[1]), Account: e.bech(ws[2]), Name: attrRaw(ws[3]), Value: attrVal(ws[4]), ExpirationDate: attrExp(ws[5])}
+			vb(m)
+			_, err := e.amsg.UpdateAttributeExpiration(ctx, m)
 			return err
 		})
 	case "del":
 		return run(func(ctx sdk.Context) error {
-			_, err := e.amsg.DeleteAttribute(ctx, &attrtypes.MsgDeleteAttributeRequest{
-				Owner: e.bech(ws[1]), Account: e.bech(ws[2]), Name: ws[3]})
+			m := &attrtypes.MsgDeleteAttributeRequest{
+				Owner: e.bech(ws[1]), Account: e.bech(ws[2]), Name: attrRaw(ws[3])}
+			vb(m)
+			_, err := e.amsg.DeleteAttribute(ctx, m)
 			return err
 		})
 	case "deld":
 		return run(func(ctx sdk.Context) error {
-			_, err := e.amsg.DeleteDistinctAttribute(ctx, &attrtypes.MsgDeleteDistinctAttributeRequest{
-				Owner: e.bech(ws[1]), Account: e.bech(ws[2]), Name: ws[3], Value: attrVal(ws[4])})
+			m := &attrtypes.MsgDeleteDistinctAttributeRequest{
+				Owner: e.bech(ws[1]), Account: e.bech(ws[2]), Name: attrRaw(ws[3]), Value: attrVal(ws[4])}
+			vb(m)
+			_, err := e.amsg.DeleteDistinctAttribute(ctx, m)
 			return err
 		})
 	case "bind":
 		return run(func(ctx sdk.Context) error {
-			seg := strings.TrimSuffix(ws[1], "."+attrRoot)
+			// the record segment is the raw name up to its last dot; the parent is the root
+			seg := attrRaw(ws[1])
+			if i := strings.LastIndex(seg, "."); i >= 0 {
+				seg = seg[:i]
+			}
 			_, err := e.nmsg.BindName(ctx, &nametypes.MsgBindNameRequest{
 				Parent: nametypes.NameRecord{Name: attrRoot, Address: e.bech(ws[2])},
 				Record: nametypes.NameRecord{Name: seg, Address: e.bech(ws[2]), Restricted: true}})
@@ -267,13 +387,13 @@ func (e *attrEnv) exec(op string) string {
 		return run(func(ctx sdk.Context) error {
 			_, err := e.nmsg.ModifyName(ctx, &nametypes.MsgModifyNameRequest{
 				Authority: e.bech(ws[1]),
-				Record:    nametypes.NameRecord{Name: ws[2], Address: e.bech(ws[3]), Restricted: true}})
+				Record:    nametypes.NameRecord{Name: attrRaw(ws[2]), Address: e.bech(ws[3]), Restricted: true}})
 			return err
 		})
 	case "delname":
 		return run(func(ctx sdk.Context) error {
 			_, err := e.nmsg.DeleteName(ctx, &nametypes.MsgDeleteNameRequest{
-				Record: nametypes.NameRecord{Name: ws[2], Address: e.bech(ws[1])}})
+				Record: nametypes.NameRecord{Name: attrRaw(ws[2]), Address: e.bech(ws[1])}})
 			return err
 		})
 	case "begin":
@@ -333,7 +453,7 @@ func (e *attrEnv) dump() string {
 		if a.ExpirationDate != nil {
 			exp = strconv.FormatInt(a.ExpirationDate.Unix(), 10)
 		}
-		recs = append(recs, fmt.Sprintf("%s/%s/%s/%s/%s", e.symStr(a.Address), a.Name, string(a.Value), attrTypeStr(a.AttributeType), exp))
+		recs = append(recs, fmt.Sprintf("%s/%s/%s/%s/%s", e.symStr(a.Address), attrTok(a.Name), string(a.Value), attrTypeStr(a.AttributeType), exp))
 	}
 	it.Close()
 	// the public lookup
@@ -390,6 +510,9 @@ func (e *attrEnv) dump() string {
 
 // --- observed-state helpers for the generator (mostly-valid ops) ---
 
+// position of the name token in each op line
+var attrNameField = map[string]int{"add": 3, "upd": 3, "updexp": 3, "del": 3, "deld": 3, "bind": 1, "xfer": 2, "delname": 2}
+
 type attrRec struct{ acct, name, value, ty, exp string }
 
 func (e *attrEnv) lastRecs() []attrRec {
@@ -428,6 +551,15 @@ func (e *attrEnv) emit(out *Out, op string) string {
 		} else {
 			out.Count("rejected")
 		}
+		if i := attrNameField[ws[0]]; i > 0 && i < len(ws) {
+			if c := attrSpellClass(ws[i]); c != "exact" {
+				out.Count("spelling:" + c)
+				out.Count("spelled:" + ws[0] + ":" + res)
+				if e.lastVB != "" {
+					out.Count("spelled:validatebasic:" + e.lastVB)
+				}
+			}
+		}
 	}
 	return res
 }
@@ -461,6 +593,10 @@ func driveAttr(t *testing.T, rng *RNG, n int, out *Out) {
 		accts := []string{Pick(rng, signers), Pick(rng, signers), "C"}
 		vals := []string{Pick(rng, attrValues), Pick(rng, attrValues), Pick(rng, attrValues)}
 		nops := 3 + rng.Intn(maxOps-2)
+		seen := map[string]attrRec{}
+		var gone []attrRec
+		var plan []string
+		planName := ""
 		for i := 0; i < nops; i++ {
 			name := Pick(rng, attrNames)
 			if rng.Chance(60) {
@@ -499,10 +635,74 @@ func driveAttr(t *testing.T, rng *RNG, n int, out *Out) {
 				}
 			}
 			recs := e.lastRecs()
+			// attributes that were stored earlier in this history and are gone now (deleted,
+			// purged with their name, expired): re-adding exactly them meets whatever the
+			// removal left behind (queue entries, counters)
+			{
+				cur := map[string]bool{}
+				for _, r := range recs {
+					cur[r.acct+"/"+r.name+"/"+r.value] = true
+					seen[r.acct+"/"+r.name+"/"+r.value] = r
+				}
+				gone = gone[:0]
+				for k, r := range seen {
+					if !cur[k] {
+						gone = append(gone, r)
+					}
+				}
+				sort.Slice(gone, func(i, j int) bool {
+					return gone[i].acct+"/"+gone[i].name+"/"+gone[i].value < gone[j].acct+"/"+gone[j].name+"/"+gone[j].value
+				})
+			}
+			// sn fixes the signer and the spelling of the name once a branch has chosen its
+			// target: about a quarter of the messages spell the name non-normalised, and those
+			// are signed by a stranger (an account that does not own the name) half of the time
+			spelled := rng.Chance(27)
+			sn := func() (string, string) {
+				if !spelled {
+					return signer, name
+				}
+				tok := attrSpell(rng, name)
+				sg := signer
+				if rng.Chance(50) {
+					var others []string
+					for _, c := range signers {
+						if c != e.owner(name) {
+							others = append(others, c)
+						}
+					}
+					sg = Pick(rng, others)
+					out.Count("spelled:by_stranger")
+				}
+				return sg, tok
+			}
 			var op string
-			switch k := rng.Intn(100); {
+			k := rng.Intn(100)
+			// follow-up of an accepted name deletion: bind the name again, re-add what was
+			// purged, let time pass (each step taken three times out of four)
+			forced := ""
+			if len(plan) > 0 {
+				if rng.Chance(75) {
+					forced = plan[0]
+					k = map[string]int{"bind": 66, "readd": 0, "begin": 99}[forced]
+				}
+				plan = plan[1:]
+			}
+			switch {
 			case k < 30:
-				op = fmt.Sprintf("add %s %s %s %s %s %s", signer, acct, name, val, ty, exp)
+				if len(gone) > 0 && (forced == "readd" || rng.Chance(35)) {
+					r := Pick(rng, gone)
+					acct, name, val = r.acct, r.name, r.value
+					if rng.Chance(60) {
+						ty = r.ty
+					}
+					if o := e.owner(name); o != "" && rng.Chance(90) {
+						signer = o
+					}
+					out.Count("add:formerly_stored")
+				}
+				sg, nm := sn()
+				op = fmt.Sprintf("add %s %s %s %s %s %s", sg, acct, nm, val, ty, exp)
 			case k < 40:
 				ov, ot := val, ty
 				if len(recs) > 0 && rng.Chance(88) {
@@ -515,7 +715,8 @@ func driveAttr(t *testing.T, rng *RNG, n int, out *Out) {
 						ot = Pick(rng, attrTypes)
 					}
 				}
-				op = fmt.Sprintf("upd %s %s %s %s %s %s %s", signer, acct, name, ov, ot, Pick(rng, vals), ty)
+				sg, nm := sn()
+				op = fmt.Sprintf("upd %s %s %s %s %s %s %s", sg, acct, nm, ov, ot, Pick(rng, vals), ty)
 			case k < 52:
 				if len(recs) > 0 && rng.Chance(88) {
 					r := Pick(rng, recs)
@@ -523,8 +724,16 @@ func driveAttr(t *testing.T, rng *RNG, n int, out *Out) {
 					if o := e.owner(name); o != "" && rng.Chance(85) {
 						signer = o
 					}
+					// re-submission of the expiration that is already stored
+					if r.exp != "-" && rng.Chance(20) {
+						if t, _ := strconv.ParseInt(r.exp, 10, 64); t >= e.now() {
+							exp = r.exp
+							out.Count("updexp:same_expiration")
+						}
+					}
 				}
-				op = fmt.Sprintf("updexp %s %s %s %s %s", signer, acct, name, val, exp)
+				sg, nm := sn()
+				op = fmt.Sprintf("updexp %s %s %s %s %s", sg, acct, nm, val, exp)
 			case k < 58:
 				if len(recs) > 0 && rng.Chance(88) {
 					r := Pick(rng, recs)
@@ -533,7 +742,8 @@ func driveAttr(t *testing.T, rng *RNG, n int, out *Out) {
 						signer = o
 					}
 				}
-				op = fmt.Sprintf("del %s %s %s", signer, acct, name)
+				sg, nm := sn()
+				op = fmt.Sprintf("del %s %s %s", sg, acct, nm)
 			case k < 66:
 				if len(recs) > 0 && rng.Chance(88) {
 					r := Pick(rng, recs)
@@ -542,28 +752,44 @@ func driveAttr(t *testing.T, rng *RNG, n int, out *Out) {
 						signer = o
 					}
 				}
-				op = fmt.Sprintf("deld %s %s %s %s", signer, acct, name, val)
-			case k < 71:
+				sg, nm := sn()
+				op = fmt.Sprintf("deld %s %s %s %s", sg, acct, nm, val)
+			case k < 72:
 				// prefer a name that is currently unbound
 				for _, nm := range attrNames {
 					if e.owner(nm) == "" && rng.Chance(70) {
 						name = nm
 					}
 				}
-				op = fmt.Sprintf("bind %s %s", name, Pick(rng, signers))
-			case k < 77:
+				if forced == "bind" {
+					name = planName
+				}
+				_, nm := sn()
+				op = fmt.Sprintf("bind %s %s", nm, Pick(rng, signers))
+			case k < 78:
 				au := signer
 				if rng.Chance(15) {
 					au = "gov"
 				}
+				if sg, nm := sn(); nm != name {
+					if au != "gov" {
+						au = sg
+					}
+					name = nm
+				}
 				op = fmt.Sprintf("xfer %s %s %s", au, name, Pick(rng, signers))
-			case k < 80:
-				op = fmt.Sprintf("delname %s %s", signer, name)
+			case k < 82:
+				sg, nm := sn()
+				op = fmt.Sprintf("delname %s %s", sg, nm)
 			default:
 				op = fmt.Sprintf("begin %d", e.now()+int64(Pick(rng, []int{0, 1, 1, 2, 3, 6, 11, 25})))
 			}
-			e.emit(out, op)
+			res := e.emit(out, op)
 			e.emit(out, "dump")
+			if strings.HasPrefix(op, "delname ") && res == "ok" && len(recs) > 0 {
+				plan, planName = []string{"bind", "readd", "begin"}, name
+				out.Count("plan:purge_rebind_readd")
+			}
 		}
 		out.Count("histories")
 	}
